@@ -865,18 +865,18 @@ def single_scenarios(dw, tier, orders=("w>r", "r>w", "w|r")):
 
 
 reg("AXI2AXILite(32bit)", "quick", kind="AXI2AXILite", dw=32, scen="axi")
-reg("AXI2AXILite(64bit)", "thorough", kind="AXI2AXILite", dw=64, scen="axi")
+reg("AXI2AXILite(64bit)", "quick", kind="AXI2AXILite", dw=64, scen="axi")
 reg("AXI2AXILite(32bit)+pipelined_slave", "quick", kind="AXI2AXILite", dw=32, scen="axi", small=True, pipelined=True)
 reg("AXI2AXILite(32bit)+slave_w_before_aw", "quick", kind="AXI2AXILite", dw=32, scen="axi", small=True, w_before_aw=True, orders=("w", "w>r"))
 reg("AXI2AXILite(32bit)+err_responses", "quick", kind="AXI2AXILite", dw=32, scen="axi", small=True, err=True, orders=("w", "r"))
 reg("AXILite2AXI(32bit)", "quick", kind="AXILite2AXI", dw=32, scen="single")
-reg("AXILite2AXI(64bit)", "thorough", kind="AXILite2AXI", dw=64, scen="single")
+reg("AXILite2AXI(64bit)", "quick", kind="AXILite2AXI", dw=64, scen="single")
 reg("AXILite2AXI(32bit)+pipelined_slave", "quick", kind="AXILite2AXI", dw=32, scen="single", pipelined=True)
 reg("AXILite2AXI(32bit)+err_responses", "quick", kind="AXILite2AXI", dw=32, scen="single", err=True, orders=("w", "r"))
 reg("AXI2Wishbone(32bit)", "quick", kind="AXI2Wishbone", dw=32, scen="axi")
-reg("AXI2Wishbone(64bit)", "thorough", kind="AXI2Wishbone", dw=64, scen="axi")
+reg("AXI2Wishbone(64bit)", "quick", kind="AXI2Wishbone", dw=64, scen="axi")
 reg("Wishbone2AXI(32bit)", "quick", kind="Wishbone2AXI", dw=32, scen="single", orders=("w>r", "r>w"))
-reg("Wishbone2AXI(64bit)", "thorough", kind="Wishbone2AXI", dw=64, scen="single", orders=("w>r", "r>w"))
+reg("Wishbone2AXI(64bit)", "quick", kind="Wishbone2AXI", dw=64, scen="single", orders=("w>r", "r>w"))
 reg("Wishbone2AXI(32bit)+pipelined_slave", "quick", kind="Wishbone2AXI", dw=32, scen="single", orders=("w>r", "r>w"), pipelined=True)
 reg("Wishbone2AXI(32bit)+err_responses", "quick", kind="Wishbone2AXI", dw=32, scen="single", orders=("w", "r"), err=True)
 
